@@ -109,7 +109,10 @@ func runJob(j *job) result {
 			return jobZNG(j, data, &r)
 		case "typevalue":
 			zctx := zed.NewContext()
-			_, err := zctx.LookupByValue(data)
+			typ, err := zctx.LookupByValue(data)
+			if err == nil {
+				r.After = TySexp(typ)
+			}
 			return err
 		case "validate":
 			return jobValidate(j, data, &r)
